@@ -13,7 +13,8 @@ class Unsupported(Exception):
     pass
 
 
-USE = 'use vstd::prelude::*;\n#[allow(unused_imports)] use crate::verif_shim::*;\n'
+USE = ('use vstd::prelude::*;\n#[allow(unused_imports)] use crate::verif_shim::*;\n'
+       '#[allow(unused_imports)] use crate::Serializable as _;\n')
 
 
 def lit_bytes(bs):
